@@ -360,4 +360,182 @@ theorem massagePools_fixed (p : PoolsVal) : ∃ v, massagePools true p = .ok v :
     obtain ⟨l, hl⟩ := massageItems_fixed items
     exact ⟨.list l, by simp [massagePools, hl]⟩
 
+/-! ### scenario weights -/
+
+theorem gcdGo_pos (fuel : Nat) (a b : Int) (ha : 0 ≤ a) (hb : 0 ≤ b) (hab : 0 < a ∨ 0 < b) : 0 < gcdGo fuel a b := by
+  induction fuel generalizing a b with
+  | zero => unfold gcdGo; split <;> omega
+  | succ f ih =>
+    unfold gcdGo
+    split
+    · rename_i h
+      split
+      · exact ih _ _ (Int.tmod_nonneg _ ha) hb (.inr h.2)
+      · exact ih _ _ ha (Int.tmod_nonneg _ hb) (.inl h.1)
+    · split <;> omega
+
+theorem gcd64_pos (a b : Int) (ha : 0 < a) (hb : 0 < b) : 0 < gcd64 a b :=
+  gcdGo_pos _ a b (by omega) (by omega) (.inl ha)
+
+/-- the loop of `math.GCD` ends: with more fuel than `a + b` one more unit of fuel changes nothing -/
+theorem gcdGo_fuel (fuel : Nat) (a b : Int) (h : a.toNat + b.toNat < fuel) : gcdGo (fuel + 1) a b = gcdGo fuel a b := by
+  induction fuel generalizing a b with
+  | zero => omega
+  | succ f ih =>
+    rw [gcdGo]
+    conv => rhs; rw [gcdGo]
+    split
+    · rename_i hp
+      split
+      · rename_i hle
+        have h1 : 0 ≤ Int.tmod a b := Int.tmod_nonneg _ (by omega)
+        have h2 : Int.tmod a b < b := Int.tmod_lt_of_pos _ hp.2
+        exact ih _ _ (by omega)
+      · rename_i hle
+        have h1 : 0 ≤ Int.tmod b a := Int.tmod_nonneg _ (by omega)
+        have h2 : Int.tmod b a < a := Int.tmod_lt_of_pos _ hp.1
+        exact ih _ _ (by omega)
+    · rfl
+
+theorem gcdmRev_pos (l : List Int) (hl : 2 ≤ l.length) (hp : ∀ w ∈ l, 0 < w) : 0 < gcdmRev l := by
+  match l, hl, hp with
+  | b :: a :: rest, _, hp =>
+    have hb : 0 < b := hp b (by simp)
+    have ha : 0 < a := hp a (by simp)
+    unfold gcdmRev
+    split
+    · exact gcd64_pos a b ha hb
+    · rename_i hne
+      have hlen : 2 ≤ (a :: rest).length := by
+        cases rest with
+        | nil => simp at hne
+        | cons _ _ => simp
+      have ih := gcdmRev_pos (a :: rest) hlen (fun w hw => hp w (by simp at hw ⊢; right; exact hw))
+      exact gcd64_pos _ _ ih (gcd64_pos a b ha hb)
+
+theorem normWeight_pos (w : Int) (h : ¬ w < 0) : 0 < normWeight w := by
+  unfold normWeight; split <;> omega
+
+theorem mapRes_tdiv (div : Int) (hd : 0 < div) (ws : List Int) (hw : ∀ w ∈ ws, 0 ≤ w) :
+    ∃ cs, mapRes (fun w => tdivC w div) ws = .ok cs ∧ cs.length = ws.length ∧ (∀ c ∈ cs, 0 ≤ c) ∧ sumInt cs ≤ sumInt ws := by
+  induction ws with
+  | nil => exact ⟨[], by simp [mapRes], rfl, by simp, by simp [sumInt]⟩
+  | cons w rest ih =>
+    obtain ⟨cs, h1, h2, h3, h4⟩ := ih (fun x hx => hw x (by simp [hx]))
+    have h0 : 0 ≤ w := hw w (by simp)
+    have hne : div ≠ 0 := by omega
+    have e : tdivC w div = .ok (Int.tdiv w div) := by simp [tdivC, hne]
+    refine ⟨Int.tdiv w div :: cs, by rw [mapRes, e]; simp only; rw [h1], by simp [h2], ?_, ?_⟩
+    · intro c hc
+      simp at hc
+      rcases hc with rfl | hc
+      · exact Int.tdiv_nonneg h0 (by omega)
+      · exact h3 c hc
+    · have : Int.tdiv w div ≤ w := Int.tdiv_le_self _ h0
+      simp only [sumInt, List.foldr_cons] at h4 ⊢
+      omega
+
+/-- `SpreadNames` on weights none of which is negative: no division by zero, every count is ≥ 0,
+and there are no more copies than the weights announce -/
+theorem spreadCounts_nonneg (ws : List Int) (h : ∀ w ∈ ws, ¬ w < 0) :
+    ∃ cs, spreadCounts ws = .ok cs ∧ cs.length = ws.length ∧ (∀ c ∈ cs, 0 ≤ c) ∧ sumInt cs ≤ sumInt (ws.map normWeight) := by
+  match ws, h with
+  | [], _ => exact ⟨[], rfl, rfl, by simp, by simp [sumInt]⟩
+  | [w], h =>
+    refine ⟨[1], rfl, rfl, by simp, ?_⟩
+    have := normWeight_pos w (h w (by simp))
+    simp [sumInt]; omega
+  | a :: b :: rest, h =>
+    have hpos : ∀ w ∈ (a :: b :: rest).map normWeight, 0 < w := by
+      intro w hw
+      obtain ⟨x, hx, rfl⟩ := List.mem_map.mp hw
+      exact normWeight_pos x (h x hx)
+    have hd : 0 < gcdmRev ((a :: b :: rest).map normWeight).reverse :=
+      gcdmRev_pos _ (by simp) (fun w hw => hpos w (List.mem_reverse.mp hw))
+    obtain ⟨cs, h1, h2, h3, h4⟩ := mapRes_tdiv _ hd ((a :: b :: rest).map normWeight) (fun w hw => by have := hpos w hw; omega)
+    exact ⟨cs, by simp only [spreadCounts]; exact h1, by simpa using h2, h3, h4⟩
+
+theorem makeCapC_ok (n : Int) (h0 : 0 ≤ n) (h1 : n * 8 ≤ memCap) : makeCapC n = .ok () := by
+  unfold makeCapC maxAlloc
+  unfold memCap at h1
+  have a : ¬ n < 0 := by omega
+  have b : ¬ n * 8 > 281474976710656 := by omega
+  have c : ¬ n * 8 > memCap := by unfold memCap; omega
+  simp [a, b, c]
+
+theorem sumInt_nonneg (l : List Int) (h : ∀ c ∈ l, 0 ≤ c) : 0 ≤ sumInt l := by
+  induction l with
+  | nil => simp [sumInt]
+  | cons a as ih =>
+    have := ih (fun c hc => h c (by simp [hc]))
+    have := h a (by simp)
+    simp only [sumInt, List.foldr_cons] at *
+    omega
+
+theorem spread_fixed_neg (ws : List Int) (h : ∃ w ∈ ws, w < 0) : spread true ws = .err "weight" := by
+  unfold spread
+  have : ws.any (fun w => decide (w < 0)) = true := by
+    obtain ⟨w, hw, hn⟩ := h
+    exact List.any_eq_true.mpr ⟨w, hw, by simpa using hn⟩
+  simp [this]
+
+/-- the repaired `decodeAmmo`: an error for a negative weight, otherwise the counts (all ≥ 0) - provided the announced
+number of copies fits in memory -/
+theorem spread_fixed (ws : List Int) (hmem : sumInt (ws.map normWeight) * 8 ≤ memCap) :
+    spread true ws = .err "weight" ∨ ∃ cs, spread true ws = .ok cs ∧ cs.length = ws.length ∧ ∀ c ∈ cs, 0 ≤ c := by
+  by_cases hneg : ∃ w ∈ ws, w < 0
+  · left; exact spread_fixed_neg ws hneg
+  · right
+    have hall : ∀ w ∈ ws, ¬ w < 0 := fun w hw hn => hneg ⟨w, hw, hn⟩
+    obtain ⟨cs, h1, h2, h3, h4⟩ := spreadCounts_nonneg ws hall
+    refine ⟨cs, ?_, h2, h3⟩
+    unfold spread
+    have : ws.any (fun w => decide (w < 0)) = false := by
+      apply Bool.eq_false_iff.mpr
+      intro hany
+      obtain ⟨w, hw, hn⟩ := List.any_eq_true.mp hany
+      exact hall w hw (by simpa using hn)
+    simp only [this, Bool.and_false, Bool.false_eq_true, if_false, h1]
+    rw [makeCapC_ok _ (sumInt_nonneg cs h3) (by omega)]
+
+/-! ### randString -/
+
+theorem randStringLen_fixed (n : Int) (hmem : n * 4 ≤ memCap) :
+    (n < 0 ∧ randStringLen true n = .err "length") ∨ (n = 0 ∧ randStringLen true n = .ok 1) ∨
+    (0 < n ∧ randStringLen true n = .ok n.toNat) := by
+  unfold randStringLen makeRunesC maxAlloc
+  unfold memCap at hmem
+  by_cases h0 : n = 0
+  · subst h0; right; left; simp [memCap]
+  · by_cases hn : n < 0
+    · left; simp [h0, hn]
+    · right; right
+      have a : ¬ n * 4 > 281474976710656 := by omega
+      have b : ¬ n * 4 > memCap := by unfold memCap; omega
+      refine ⟨by omega, ?_⟩
+      simp [h0, hn, a, b]
+
+theorem randStringLen_fixed_no_panic (n : Int) : (randStringLen true n).isPanic = false ∨ n * 4 > maxAlloc := by
+  by_cases hbig : n * 4 > maxAlloc
+  · right; exact hbig
+  · left
+    unfold randStringLen makeRunesC
+    by_cases h0 : n = 0
+    · subst h0; simp [maxAlloc, memCap, Res.isPanic]
+    · by_cases hn : n < 0
+      · simp [h0, hn, Res.isPanic]
+      · by_cases hm : n * 4 > memCap <;>
+          simp [h0, hn, hbig, hm, Res.castFail, Res.isPanic]
+
+theorem pickLetter_returns (nLetters rnd : Nat) : ∃ i, pickLetter nLetters rnd = .ok i := by
+  unfold pickLetter defaultLetters
+  simp only
+  generalize hk : (if nLetters = 0 then 64 else nLetters) = k
+  have hpos : 0 < k := by subst hk; split <;> omega
+  rw [intnC_ok (k : Int) rnd (by omega)]
+  simp only [Res.bind]
+  have h0 : 0 ≤ Int.ofNat rnd % (k : Int) := Int.emod_nonneg _ (by omega)
+  have h1 : Int.ofNat rnd % (k : Int) < k := Int.emod_lt_of_pos _ (by omega)
+  exact indexC_ok (List.range k) _ h0 (by simpa using h1)
+
 end Pandora.Proofs.C13
